@@ -188,6 +188,7 @@ class Fingerprinter(object):
 
     def reset_mol(self):
         """Clear all variables associated with the molecule."""
+        self.mol = None
         self.atoms = None
         self.bound_atoms_dict = {}
         self.connectivity = {}
